@@ -71,9 +71,11 @@ struct counting_integrand
     T operator()(hep::mc_point<T> const& p) const
     {
         ++calls();
+        points().push_back(p.point());
         return T(1) + p.point()[0];
     }
     static sz& calls() { static sz c = 0; return c; }
+    static std::vector<std::vector<T>>& points() { static std::vector<std::vector<T>> p; return p; }
 };
 
 template <typename T>
@@ -110,28 +112,33 @@ static void part_b(report& r, int kind, sz total, int world)
     std::vector<std::uint64_t> end_pos(world);
     std::vector<sz> reported(world);
     vf::mpi_env env(world);
+    env.subgroup = true;      // the integrators must take rank and size from the communicator they are given
+    MPI_Comm const comm = env.comm();
     using E = vf::script_engine;
+    std::vector<std::vector<std::vector<T>>> rank_points(world);
     auto outcome = env.run([&](int rank) {
         counting_integrand<T>::calls() = 0;
+        counting_integrand<T>::points().clear();
         if (kind == 0)
         {
-            auto chk = hep::mpi_plain(MPI_COMM_WORLD, hep::make_integrand<T>(counting_integrand<T>(), 2), std::vector<sz>{total},
+            auto chk = hep::mpi_plain(comm, hep::make_integrand<T>(counting_integrand<T>(), 2), std::vector<sz>{total},
                 hep::make_plain_chkpt<T, E>(), vf::never_stop_mpi());
             end_pos[rank] = chk.generator().position(); reported[rank] = chk.results().back().calls();
         }
         else if (kind == 1)
         {
-            auto chk = hep::mpi_vegas(MPI_COMM_WORLD, hep::make_integrand<T>(counting_integrand<T>(), 2), std::vector<sz>{total},
+            auto chk = hep::mpi_vegas(comm, hep::make_integrand<T>(counting_integrand<T>(), 2), std::vector<sz>{total},
                 hep::make_vegas_chkpt<T, E>(3, T(1.5), E()), vf::never_stop_mpi());
             end_pos[rank] = chk.generator().position(); reported[rank] = chk.results().back().calls();
         }
         else
         {
-            auto chk = hep::mpi_multi_channel(MPI_COMM_WORLD, hep::make_multi_channel_integrand<T>(counting_mc_integrand<T>(), 1, id_map<T>(), 1, 2),
+            auto chk = hep::mpi_multi_channel(comm, hep::make_multi_channel_integrand<T>(counting_mc_integrand<T>(), 1, id_map<T>(), 1, 2),
                 std::vector<sz>{total}, hep::make_multi_channel_chkpt<T, E>(T(), T(0.25), E()), vf::never_stop_mpi());
             end_pos[rank] = chk.generator().position(); reported[rank] = chk.results().back().calls();
         }
         per_rank[rank] = counting_integrand<T>::calls();
+        rank_points[rank] = counting_integrand<T>::points();
     });
     if (!outcome.ok)
     {
@@ -154,6 +161,26 @@ static void part_b(report& r, int kind, sz total, int world)
     }
     if (sum != total) r.violate("calls-do-not-sum-to-total", id, id + ": sum of per-rank evaluations " + std::to_string(sum));
     if (mx - mn > 1) r.violate("calls-differ-by-more-than-one", id, id + ": max-min=" + std::to_string(mx - mn));
+    if (kind == 0 && sum == total)
+    {
+        // the shares are placed without gap or overlap: in rank order the ranks see exactly the serial point sequence
+        counting_integrand<T>::points().clear();
+        vf::script_engine gen;
+        (void) hep::plain_iteration(hep::make_integrand<T>(counting_integrand<T>(), 2), total, gen);
+        auto const serial = counting_integrand<T>::points();
+        sz pos = 0;
+        for (int k = 0; k != world; ++k)
+            for (auto const& pt : rank_points[k])
+            {
+                if (pos >= serial.size() || !vf::same_bits(pt[0], serial[pos][0]) || !vf::same_bits(pt[1], serial[pos][1]))
+                {
+                    r.violate("shares-not-placed-contiguously", id, id + ": point " + std::to_string(pos) + " in rank order (rank " + std::to_string(k) + ") is ("
+                        + vf::dec(pt[0]) + ", " + vf::dec(pt[1]) + "), the serial stream has (" + (pos < serial.size() ? vf::dec(serial[pos][0]) + ", " + vf::dec(serial[pos][1]) : std::string("nothing")) + ")");
+                    k = world - 1; break;
+                }
+                ++pos;
+            }
+    }
     r.validated();
     if (total % world) r.distinct(vf::hash_str(id));
 }
